@@ -130,6 +130,14 @@ PROPS = {
         claim="Theorems for all pairs of texts and all flag combinations: matrix_eq_rec (every cell of the flat matrix, filled with the code's candidate order and first-minimum tie-breaking, equals the recursive reference recurrence osaR), distance_le_script + distance_attained (the value is the minimum cost over all edit scripts: Levenshtein without swaps, optimal string alignment with, whitespace never substituted/transposed under spaces_insert_delete_only), distance_eq_zero_iff, normalized_range (<= longer length without sid; two empty strings give 0), normalized_range_sid_partial + sid_counterexample (F12), prefix_min. editOperations_ok (operations(): the backtrace never reaches its panic branch, the script has exactly `distance` operations, is sorted by position and applying it to a yields b), editOperations_minimal (no alignment script is shorter), editOperations_flags (no whitespace substituted / transposed under spaces_insert_delete_only, no swap without with_swap). The script itself is also compared exactly with the implementation (tie-breaking modelled).",
         note="Grapheme clusters come from the real CharString. f64 division compared against the exact rational with tolerance. F12 is an open known finding; D1 (NaN for two empty strings) was repaired by a fix: commit.",
     ),
+    "C15": dict(
+        anchors=[("src/corrupt.rs", r"pub fn edit_word<"), ("src/corrupt.rs", r"impl<'s> GetEdits<'s> for InsertEdits<'s>"), ("src/corrupt.rs", r"impl<'s> GetEdits<'s> for ReplaceEdits<'s>"), ("src/corrupt.rs", r"impl<F> CanEdit for DeleteEdits<F>"), ("src/corrupt.rs", r"impl<F> CanEdit for SwapEdits<F>")],
+        rule="words of 0-5 characters over {a,b,z,a-umlaut,c} (z is the character the harness' can_delete / can_swap predicates refuse) x all 16 subsets of {insert, delete, replace, swap} x random exclusion sets x dense random context tables for the REAL InsertEdits / ReplaceEdits providers (contexts incl. <bow>/<eow>, edit strings incl. the empty string, multi-character and multi-byte strings) x full_delete on/off x seeds x both grapheme modes; chains of 1-4 edits re-using the returned exclusion set; the observed (word', exclusions') of edit_word must be one of the model's outcomes",
+        trusted=["ChaCha8 / rand (random_range, WeightedIndex): the three draws are choices; the model lists every outcome", "the harness' can_delete / can_swap predicates are re-stated in the model (character z is frozen)"] + UNICODE,
+        claim="Model of edit_word with the four edit kinds, the candidate filters, the re-indexing of the exclusion set and the context lookups of InsertEdits / ReplaceEdits (as repaired); relational correspondence: every observed result must be a listed outcome. Oracle: no panic, exclusion set inside the new word, protected characters preserved at their re-mapped positions. Theorems (outcomes_unchanged_or_one, outcomes_excl_bound, outcomes_protected, editWord_mem_outcomes / outcomes_complete, chain_excl_bound) are being proved against this model; those present in Props/C15.lean are audited on every run.",
+        note="D6 (idx - 1 underflow at the word start in the context providers) was found by this check (panic under overflow checks) and repaired by a fix: commit. In grapheme mode an inserted string can fuse with a neighbouring character on re-segmentation (the oracle would report it as F16); the generator's alphabet contains no combining marks, so this class is not explored.",
+        min_nontrivial={"quick": 500, "thorough": 5000},
+    ),
     "C16": dict(
         anchors=[("src/windows.rs", r"pub fn windows<"), ("src/windows.rs", r"pub fn char\("), ("src/windows.rs", r"pub fn byte\("), ("src/windows.rs", r"fn count_until\("), ("src/unicode.rs", r"pub\(crate\) fn char_range_to_byte_range\(")],
         rule="vectors of cluster byte lengths (1-4 byte characters, 5-9 byte grapheme clusters realised as base + combining marks) of length 0-30 x max 0-12 x context 0-5 (invalid max <= 2*ctx and too-wide characters included) x char/byte/full; thorough adds all length vectors of length <= 6 over {1,2,3,4} x 11 (max,ctx) pairs",
@@ -147,6 +155,14 @@ PROPS = {
         min_nontrivial={"quick": 500, "thorough": 5000},
         claim="Theorems for all pairs of word sequences: matchWords_ok (the DP with Rust's last-maximum tie-breaking and its backtrace never reach the panic branch; the pairs are strictly increasing in both coordinates, matched words are equal, and their number equals the LCS recurrence), lcs_upper + lcs_attained (the recurrence is the length of a longest common subsequence: upper bound for every common subsequence, attained by one), edited_eq_complement, splitAsciiWs_words. Exact correspondence on the pair list itself (tie-breaking modelled), counts, and edited_words; independent LCS oracle in the harness.",
         note="Case-insensitive comparison uses lowercase keys supplied by the real str::to_lowercase; 'whitespace-separated' is read as ASCII whitespace (split_ascii_whitespace), which is what the function documents and what its callers (cleaned text) need.",
+    ),
+    "C13": dict(
+        anchors=[("src/metrics.rs", r"fn _f1\("), ("src/metrics.rs", r"fn _group_words\("), ("src/metrics.rs", r"fn _spelling_correction_tp_fp_fn\("), ("src/metrics.rs", r"fn _whitespace_correction_tp_fp_fn\("), ("src/metrics.rs", r"fn _correction_f1\("), ("src/metrics.rs", r"fn _mean_edit_distance\("), ("src/metrics.rs", r"pub fn accuracy<"), ("src/metrics.rs", r"impl TpFpFn \{")],
+        rule="triples (input, prediction, target) of word sequences over a small vocabulary incl. case variants, multi-byte and combining characters: the input is a 0-2 step perturbation of the target (misspell / merge / split / delete / add a word), the prediction is the target, the input, empty, or a further perturbation; lists of 0-3 triples; a stream with characters whose NFKC form contains a space; beta in {0, 1/2, 1, 2}; micro and sequence averaging; three whitespace modes on triples sharing one non-whitespace skeleton (plus non-equivalent ones for the error branch); both grapheme modes; boolean vectors for binary F1 / accuracy incl. length mismatches; every call under catch_unwind. Requests carry the raw strings (given to the metric functions) and the prepared texts clean(NFKC(clean(raw))) the model works on",
+        trusted=UNICODE + ["unicode-normalization (NFKC) and text::clean are applied by the real code in the harness; the model receives the prepared texts", "f64 arithmetic is compared with the model's exact rationals with relative tolerance 1e-12"],
+        claim="Model of _f1, micro / sequence averaging, accuracy, binary F1, mean (normalised) edit distance, the whitespace-correction counts and the spelling-correction counts (_group_words as repaired, _spelling_correction_tp_fp_fn), composed from the C10/C11/C12/C18 models; all values as exact rationals, compared with the f64 results of the real functions on every request. Oracle: no panic, finite, in [0,1], prediction == target => precision = recall = F (no false positives / negatives), unchanged prediction => zero true positives, formulas of accuracy / binary F1. Theorems (f1_range, micro/seqavg range, whitespace-count calibration, ...) are being proved against this model; those present in Props/C13.lean are audited on every run.",
+        note="D8 (panic when input or prediction is empty) and D12 (panic on characters whose NFKC form contains a space) were found by this check and repaired by fix: commits. Totality of _group_words on clean texts (no assertion failure) is decided by correspondence + the no-panic oracle, not by a theorem.",
+        min_nontrivial={"quick": 500, "thorough": 5000},
     ),
     "C14": dict(
         anchors=[("src/data/preprocessing.rs", r"fn corrupt_whitespace\("), ("src/whitespace.rs", r"pub fn operations\("), ("src/whitespace.rs", r"pub fn repair\(")],
